@@ -23,7 +23,7 @@ def main(argv=None):
     env.load_pygom()
     quick = run.tier == "quick"
     seeds = ["SIR", "BD", "ONE"] if quick else ["SIR", "BD", "ONE", "CHAIN", "SIRS2", "DRAIN", "SEIRBD"]
-    dbound = 1 if quick else 2
+    dbound = 1
     defs, ngen = fam.gather_defs(seeds, dbound)
     seed_defs, _ = fam.gather_defs(seeds, 0)
     seedkeys = {stoch.gen.canon(d) for _s, d in seed_defs} if hasattr(stoch, "gen") else set()
@@ -47,7 +47,9 @@ def main(argv=None):
                         name = "%s#%d/%s/grid=%s/%s/x0=%s" % (sname, i, "-".join(map(str, mode)), gname, cont, xx)
                         c = stoch.Config(d, stoch.theta_for(d), xx, float(g[-1]), mode, grid=grid, name=name)
                         cfgs.append(c)
-                        b = (2 if quick else 3) if (is_seed and cont == "array" and gname in ("fine", "near-miss", "uniform")) else bound
+                        # thorough: deviation bound 2 within one edit of SIR/BD/ONE, 1 around the other four seeds, 3 on the seeds
+                        b = (2 if quick else 3) if (is_seed and cont == "array" and gname in ("fine", "near-miss", "uniform")) else \
+                            (bound if (quick or sname in ("SIR", "BD", "ONE")) else 1)
                         jobs.append((c, b, 8000 if quick else 80000, "c15"))
     order = sorted(range(len(jobs)), key=lambda k: -jobs[k][1])
     jobs = [jobs[k] for k in order]
